@@ -28,8 +28,19 @@ def _content(label, member, p, cplx, which):
     return v
 
 
-def field(labels, slayout, cplx, which):
-    """DataArray for a sequence of first-dimension labels."""
+def field(labels, slayout, cplx, which, missing=()):
+    """DataArray for a sequence of first-dimension labels; `missing`: labels whose sample(s) are entirely NaN."""
+    da = _field(labels, slayout, cplx, which)
+    if missing:
+        bad = [i for i, L in enumerate(labels) if L in set(missing)]
+        if bad:
+            vals = np.array(da.values, copy=True)
+            vals[bad] = np.nan
+            da = da.copy(data=vals)
+    return da
+
+
+def _field(labels, slayout, cplx, which):
     p = PX if which == "X" else PY
     fdim = "x" if which == "X" else "y"
     labels = list(labels)
@@ -53,6 +64,8 @@ def build(fam):
     S, C = xe.single, xe.cross
     cplx = fam.startswith("Complex")
     base = fam.replace("Complex", "")
+    if base.endswith("nan"):          # trained on data with an entirely missing sample (XUnseen.TrainMissing)
+        base = base[:-3]
     rot = None
     if "Rotator" in base:
         power = int(base[-1])
@@ -117,7 +130,8 @@ def _fit_once(fam, slayout):
     if True:
         kind, mk, rot, cplx = build(fam)
         train = list(range(1, NTRAIN + 1))
-        X, Y = field(train, slayout, cplx, "X"), field(train, slayout, cplx, "Y")
+        miss = (3,) if fam.endswith("nan") else ()
+        X, Y = field(train, slayout, cplx, "X", miss), field(train, slayout, cplx, "Y", miss)
         m = mk()
         with warnings.catch_warnings():
             warnings.simplefilter("ignore")
@@ -161,7 +175,9 @@ def evaluate(i, scn):
     fam, sl, nz = c["fam"], c["slayout"], c["normalized"]
     kind, obj, cplx = fitted(fam, sl)
     labels = pred["labels"]
-    X, Y = field(labels, sl, cplx, "X"), field(labels, sl, cplx, "Y")
+    amiss = tuple(pred.get("argMissing", ()))
+    tmiss = set(pred.get("trainMissing", ()))
+    X, Y = field(labels, sl, cplx, "X", amiss), field(labels, sl, cplx, "Y", amiss)
     try:
         res = call_transform(kind, obj, X, Y, nz)
     except Exception as e:  # noqa
@@ -169,6 +185,7 @@ def evaluate(i, scn):
         ck.d(False, prop, "TransformAnswers", f"{fam}: transform({c['rel']} samples, {sl}) raised {type(e).__name__}: {str(e)[:160]}")
         return dict(found=ck.found, D=ck.D)
     want = first_labels(X)
+    optional = {str(first_labels(X)[i]) for i, L in enumerate(labels) if L in set(amiss)}      # entirely missing: may be omitted
     sc = call_scores(kind, obj, nz)
     if kind == "cross" and c["split"] == 0:
         # the two fields are independent arguments: Y alone, after an X with other sample labels
@@ -177,7 +194,7 @@ def evaluate(i, scn):
                 warnings.simplefilter("ignore")
                 obj.transform(X=field(list(range(1, NTRAIN + 1)), sl, cplx, "X"))
                 ry = obj.transform(Y=Y, normalized=nz)
-            ok = "time" in ry.dims and sorted(map(str, first_labels(ry))) == sorted(map(str, want))
+            ok = "time" in ry.dims and sorted(map(str, first_labels(ry))) in (sorted(map(str, want)), sorted(x for x in map(str, want) if x not in optional))
             ck.d(ok, "C05", "C05_LabelsFromArgument", f"{fam}: transform(Y=...) after transform(X=training) is labelled {first_labels(ry)[:6] if 'time' in ry.dims else ry.dims}, the argument carries {want[:6]}")
         except Exception as e:  # noqa
             ck.d(False, "C05", "C05_LabelsFromArgument", f"{fam}: transform(Y=...) alone raised {type(e).__name__}: {str(e)[:120]}")
@@ -185,33 +202,45 @@ def evaluate(i, scn):
     for f, r in enumerate(res):
         # element order along a dimension may come back sorted (unstacking several sample dimensions does)
         ok_lab = "time" in r.dims and sorted(map(str, first_labels(r))) == sorted(map(str, want))
-        if ok_lab and first_labels(r) != want:
+        if not ok_lab and optional and "time" in r.dims:
+            got = list(map(str, first_labels(r)))
+            need = [str(x) for x in want if str(x) not in optional]
+            if [g for g in got if g not in optional] == need and set(got) <= set(map(str, want)):
+                r = r.reindex(time=X.indexes["time"]) if sl != "multi" else r      # omitted samples come back as NaN rows
+                ok_lab = sl != "multi" or True
+        if ok_lab and first_labels(r) != want and not (optional and sl == "multi"):
             if len(set(map(str, want))) == len(want):
                 r = r.reindex(time=X.indexes["time"]) if sl != "multi" else r
             if first_labels(r) != want:
                 ok_lab = False
         ck.d(ok_lab, "C05", "C05_LabelsFromArgument", f"{fam} field {f}: transform({c['rel']}, {sl}) is labelled {first_labels(r)[:6] if 'time' in r.dims else r.dims}, the argument carries {want[:6]}")
-        nn = int(np.isnan(np.asarray(r.values)).sum())
-        ck.d(nn == 0, "C05", "C05_LabelsFromArgument", f"{fam} field {f}: transform({c['rel']}, {sl}) contains {nn} NaN")
+        if optional:
+            keep = [i for i, x in enumerate(first_labels(r)) if str(x) not in optional]
+            nn = int(np.isnan(np.asarray(r.isel(time=keep).values)).sum())
+        else:
+            nn = int(np.isnan(np.asarray(r.values)).sum())
+        ck.d(nn == 0, "C05", "C05_LabelsFromArgument", f"{fam} field {f}: transform({c['rel']}, {sl}) contains {nn} NaN at samples that are not entirely missing")
         if not ok_lab or nn:
             continue
+        if optional and sl == "multi":
+            continue          # positions of a reduced MultiIndex result are not compared further
         # samples that are training samples reproduce the scores (C04 for the full training set, C05 for subsets)
         s = sc[f]
         prop = "C04" if c["rel"] in ("equal", "reversed") else "C05"
         clause = "C04_TrainingSamplesAreScores" if prop == "C04" else "C05_PerSample"
-        if c["rel"] in ("equal",):
+        if c["rel"] in ("equal",) and not tmiss:
             why = same(r, s, rtol=tol, what="transform vs scores")
             ck.m(why is None, "C04", "C04_TrainingSamplesAreScores", f"{fam} field {f} ({sl}, normalized={nz}): transform(training data) != scores(): {why}")
         for pos in pred["equalsScoresAt"]:
             L = labels[pos - 1]
             a = np.asarray(r.isel(time=pos - 1).transpose(..., "mode").values)
             b = np.asarray(s.isel(time=L - 1).transpose(..., "mode").values)
-            scale = max(np.abs(np.asarray(s.values)).max(), 1e-300)
+            scale = max(float(np.nanmax(np.abs(np.asarray(s.values)))), 1e-300)
             ck.m(a.shape == b.shape and np.abs(a - b).max() <= tol * scale, prop, clause,
                  f"{fam} field {f} ({sl}, normalized={nz}): scores of training sample {L} given at position {pos} of '{c['rel']}' data differ from the model's scores")
         # concatenation law at the split point
         k = c["split"]
-        if 0 < k < len(labels):
+        if 0 < k < len(labels) and not optional:
             Xl, Yl = field(labels[:k], sl, cplx, "X"), field(labels[:k], sl, cplx, "Y")
             Xr, Yr = field(labels[k:], sl, cplx, "X"), field(labels[k:], sl, cplx, "Y")
             try:
@@ -242,5 +271,5 @@ def cfg(tier, relations):
     q = tier != "thorough"
     return ["SPECIFICATION Spec", "CONSTANTS", f" NTrain = {NTRAIN}", f" Relations <- {relations}", f" Families <- {'FamQ' if q else 'FamT'}",
             f" SampleLayouts <- {'SLQ' if q else 'SLAll'}", " Normalized <- NzBoth",
-            "INVARIANT C05_LabelsFromArgument", "INVARIANT C05_PerSample", "INVARIANT C05_ConcatLaw", "INVARIANT C04_TrainingSamplesAreScores",
+            "INVARIANT C05_LabelsFromArgument", "INVARIANT C05_AnsweredByArgumentOnly", "INVARIANT C05_PerSample", "INVARIANT C05_ConcatLaw", "INVARIANT C04_TrainingSamplesAreScores",
             "INVARIANT Emit", "CHECK_DEADLOCK FALSE"]
